@@ -61,15 +61,24 @@ static void *a_malloc(size_t sz)
 	a_live++; a_bytes += (long)sz;
 	return h + 1;
 }
+/* freed blocks sit in a small quarantine with their payload poisoned (ASan) and their header readable, so that a
+ * second free of the same block is a clean verdict instead of a crash inside this allocator */
+#include <sanitizer/asan_interface.h>
+#define AH_FREED 0x6c696665dead0000ULL
+#define QUAR 1024
+static struct ah *quar[QUAR]; static int quar_pos;
 static void a_free(void *p)
 {
 	struct ah *h;
 	if (!p) return;
 	h = (struct ah *)p - 1;
-	if (h->magic != AH_MAGIC) { vh_viol("C10:bad-free:process", "free of pointer %p that is not a live library allocation (double free?)", p); return; }
-	h->magic = 0; h->prev->next = h->next; h->next->prev = h->prev;
+	if (h->magic == AH_FREED) { vh_viol("C10:double-free:process", "library freed the same block twice (%zu bytes, allocated on behalf of object %d)", h->size, h->tag); return; }
+	if (h->magic != AH_MAGIC) { vh_viol("C10:bad-free:process", "free of pointer %p that is not a live library allocation", p); return; }
+	h->magic = AH_FREED; h->prev->next = h->next; h->next->prev = h->prev;
 	a_live--; a_bytes -= (long)h->size;
-	free(h);
+	ASAN_POISON_MEMORY_REGION(h + 1, h->size);
+	if (quar[quar_pos]) { struct ah *old = quar[quar_pos]; ASAN_UNPOISON_MEMORY_REGION(old + 1, old->size); old->magic = 0; free(old); }
+	quar[quar_pos] = h; quar_pos = (quar_pos + 1) % QUAR;
 }
 static void *a_realloc(void *p, size_t sz)
 {
